@@ -15,11 +15,31 @@
 #define BX_RQ (&g_s->recv_msgs)
 #define BX_REF_OK(m) ((m)->m_refcnt.v >= 1 && (m)->m_refcnt.v <= 1000)
 #define BX_SLOT(q, k) ((q)->lmq_msgs[k])
-#define BX_SLOTS_REF_OK(q) (BX_REF_OK(BX_SLOT(q, 0)) && BX_REF_OK(BX_SLOT(q, 1)) && BX_REF_OK(BX_SLOT(q, 2)) && BX_REF_OK(BX_SLOT(q, 3)))
 #define BX_SLOT_WR(q, k) BX_SLOT(q, k)->m_refcnt, BX_SLOT(q, k)->m_body
-#define BX_SLOTS_WR(q) BX_SLOT_WR(q, 0), BX_SLOT_WR(q, 1), BX_SLOT_WR(q, 2), BX_SLOT_WR(q, 3)
 #define BX_SLOT_FREES(q, k) __CPROVER_frees(BX_SLOT(q, k), BX_SLOT(q, k)->m_body.ch_buf)
+#ifdef BUSX_INLINE
+/* queue shape variant (units *_inline): the two-slot array inside the queue object (what nni_lmq_init leaves
+ * when the ring could not be allocated, or for a depth <= 2): nothing on the heap to release */
+#define BX_LMQ_PRE(q) ((q)->lmq_alloc == 0 && LMQ_WF_SCALAR(q) && (q)->lmq_cap >= 1)
+#define BX_SLOTS_REF_OK(q) (BX_REF_OK(BX_SLOT(q, 0)) && BX_REF_OK(BX_SLOT(q, 1)))
+#define BX_SLOTS_WR(q) BX_SLOT_WR(q, 0), BX_SLOT_WR(q, 1)
+#define BX_SLOTS_FREES(q) BX_SLOT_FREES(q, 0) BX_SLOT_FREES(q, 1)
+#define BX_RING_FREES(q)
+#define BX_NSLOTS 2
+#define BX_OLD_RING_GONE(q) 1
+#define BX_OLD_RING_STAYS(q) 1
+#define BX_RING_RELEASED(q) ((q)->lmq_msgs == OLD((q)->lmq_msgs)) /* (a release of the inline array would trip the sized-free assertions of nni_free) */
+#else
+#define BX_LMQ_PRE(q) BUS_LMQ_PRE(q)
+#define BX_SLOTS_REF_OK(q) (BX_REF_OK(BX_SLOT(q, 0)) && BX_REF_OK(BX_SLOT(q, 1)) && BX_REF_OK(BX_SLOT(q, 2)) && BX_REF_OK(BX_SLOT(q, 3)))
+#define BX_SLOTS_WR(q) BX_SLOT_WR(q, 0), BX_SLOT_WR(q, 1), BX_SLOT_WR(q, 2), BX_SLOT_WR(q, 3)
 #define BX_SLOTS_FREES(q) BX_SLOT_FREES(q, 0) BX_SLOT_FREES(q, 1) BX_SLOT_FREES(q, 2) BX_SLOT_FREES(q, 3)
+#define BX_RING_FREES(q) __CPROVER_frees((q)->lmq_msgs)
+#define BX_NSLOTS BUS_QSLOTS
+#define BX_OLD_RING_GONE(q) FREED(OLD((q)->lmq_msgs))
+#define BX_OLD_RING_STAYS(q) (!FREED(OLD((q)->lmq_msgs)))
+#define BX_RING_RELEASED(q) FREED(OLD((q)->lmq_msgs))
+#endif
 /* one reference of message M (pre-state pointer expression) was released: destroyed when it was
  * the last one, else exactly one count less; KEPT: untouched */
 #define BX_BODY_SAME(M) (OLD(M)->m_body.ch_len == OLD((M)->m_body.ch_len) && OLD(M)->m_body.ch_cap == OLD((M)->m_body.ch_cap) && OLD(M)->m_body.ch_buf == OLD((M)->m_body.ch_buf) && OLD(M)->m_body.ch_ptr == OLD((M)->m_body.ch_ptr))
@@ -30,13 +50,13 @@
 /* queue q was resized to depth val: the oldest min(len, val) entries stay, in order and untouched; every
  * younger entry is released exactly once (whole messages only); the old ring is released */
 #define BX_RESIZED(q, val) ((q)->lmq_cap == (size_t) (val) && (q)->lmq_len == VP_MIN(OLD((q)->lmq_len), (size_t) (val)) && LMQ_WF_SCALAR(q) && (q)->lmq_alloc >= 2 && \
-	FREED(OLD((q)->lmq_msgs)) && \
+	BX_OLD_RING_GONE(q) && \
 	(g_j >= (q)->lmq_len || (LMQ_VIEW(q, g_j) == OLD(LMQ_VIEW(q, g_j)) && BX_KEPT(LMQ_VIEW(q, g_j)))) && \
 	(g_j < (q)->lmq_len || g_j >= OLD((q)->lmq_len) || BX_RELEASED(LMQ_VIEW(q, g_j))) && \
-	(g_j < OLD((q)->lmq_len) || g_j >= BUS_QSLOTS || BX_KEPT(LMQ_VIEW(q, g_j))))
+	(g_j < OLD((q)->lmq_len) || g_j >= BX_NSLOTS || BX_KEPT(LMQ_VIEW(q, g_j))))
 #define BX_UNTOUCHED(q) ((q)->lmq_cap == OLD((q)->lmq_cap) && (q)->lmq_len == OLD((q)->lmq_len) && (q)->lmq_get == OLD((q)->lmq_get) && (q)->lmq_put == OLD((q)->lmq_put) && \
-	(q)->lmq_alloc == OLD((q)->lmq_alloc) && (q)->lmq_mask == OLD((q)->lmq_mask) && (q)->lmq_msgs == OLD((q)->lmq_msgs) && !FREED(OLD((q)->lmq_msgs)) && \
-	(g_j >= BUS_QSLOTS || (LMQ_VIEW(q, g_j) == OLD(LMQ_VIEW(q, g_j)) && BX_KEPT(LMQ_VIEW(q, g_j)))))
+	(q)->lmq_alloc == OLD((q)->lmq_alloc) && (q)->lmq_mask == OLD((q)->lmq_mask) && (q)->lmq_msgs == OLD((q)->lmq_msgs) && BX_OLD_RING_STAYS(q) && \
+	(g_j >= BX_NSLOTS || (LMQ_VIEW(q, g_j) == OLD(LMQ_VIEW(q, g_j)) && BX_KEPT(LMQ_VIEW(q, g_j)))))
 /* the environment records that must not move in a function that neither sends, receives nor completes */
 #define BX_NO_IO (g_pipe_send_calls == OLD(g_pipe_send_calls) && g_pipe_recv_calls == OLD(g_pipe_recv_calls) && g_pipe_close_calls == OLD(g_pipe_close_calls) && g_fin_calls == OLD(g_fin_calls) && g_start_calls == OLD(g_start_calls))
 
@@ -84,7 +104,7 @@ __CPROVER_ensures(g_pipe_recv_calls == OLD(g_pipe_recv_calls) + 1 && g_pipe_recv
 #endif
 #define PX_ATTACHED ((size_t) BUSX_CLOSE_IDX < g_np)
 static void bus0_pipe_close(void *arg)
-__CPROVER_requires(arg == PX_P && g_np <= 3 && VP_NO_LOCK_HELD && BUS_LMQ_PRE(BX_SQ(PX_P)) && BX_SLOTS_REF_OK(BX_SQ(PX_P)))
+__CPROVER_requires(arg == PX_P && g_np <= 3 && VP_NO_LOCK_HELD && BX_LMQ_PRE(BX_SQ(PX_P)) && BX_SLOTS_REF_OK(BX_SQ(PX_P)))
 __CPROVER_assigns(PX_P->send_queue.lmq_get, PX_P->send_queue.lmq_len, VP_PROTO_GHOST_LIST, VP_SYNC_GHOSTS, g_free_calls, g_s->pipes.ll_head, g_bp0->node, g_bp1->node, g_bp2->node)
 __CPROVER_assigns(BX_SLOTS_WR(BX_SQ(PX_P)))
 BX_SLOTS_FREES(BX_SQ(PX_P))
@@ -110,12 +130,12 @@ __CPROVER_ensures(g_aio_stop_calls == OLD(g_aio_stop_calls) + 2 && ((g_aio_stop_
 ;
 /* fini (C03): both aios finalised once; what is still queued is released, each entry exactly once, and the ring */
 static void bus0_pipe_fini(void *arg)
-__CPROVER_requires(arg == g_bp0 && BUS_LMQ_PRE(BX_SQ(g_bp0)) && BX_SLOTS_REF_OK(BX_SQ(g_bp0)))
+__CPROVER_requires(arg == g_bp0 && BX_LMQ_PRE(BX_SQ(g_bp0)) && BX_SLOTS_REF_OK(BX_SQ(g_bp0)))
 __CPROVER_assigns(g_bp0->send_queue.lmq_get, g_bp0->send_queue.lmq_len, g_free_calls, g_aio_fini_calls, g_aio_fini_a, g_aio_fini_b)
 __CPROVER_assigns(BX_SLOTS_WR(BX_SQ(g_bp0)))
 BX_SLOTS_FREES(BX_SQ(g_bp0))
-__CPROVER_frees(g_bp0->send_queue.lmq_msgs)
-__CPROVER_ensures(FREED(OLD(g_bp0->send_queue.lmq_msgs)))
+BX_RING_FREES(BX_SQ(g_bp0))
+__CPROVER_ensures(BX_RING_RELEASED(BX_SQ(g_bp0)))
 __CPROVER_ensures(g_aio_fini_calls == OLD(g_aio_fini_calls) + 2 && ((g_aio_fini_a == &g_bp0->aio_send && g_aio_fini_b == &g_bp0->aio_recv) || (g_aio_fini_a == &g_bp0->aio_recv && g_aio_fini_b == &g_bp0->aio_send)))
 __CPROVER_ensures(BX_EMPTIED(BX_SQ(g_bp0)))
 ;
@@ -142,8 +162,9 @@ __CPROVER_assigns(VP_PROTO_GHOST_LIST, VP_SYNC_GHOSTS)
 __CPROVER_ensures(VP_NO_LOCK_HELD && VP_AIOQS_OK)
 /* still waiting: removed and completed ONCE with exactly the given code; its message slot is not touched */
 __CPROVER_ensures(g_which != 2 ==> (g_qa.n == OLD(g_qa.n) - 1 && g_fin_calls == OLD(g_fin_calls) + 1 && g_fin_last == aio && g_fin_last_rv == (int) rv && g_fin_last_count == 0))
-/* the other known waiter keeps its place */
+/* the other known waiter keeps its place (C09: waiting receivers are served in arrival order) */
 __CPROVER_ensures((g_which == 1 && OLD(g_qa.n) >= 2) ==> g_qa.head == OLD(g_qa.head))
+__CPROVER_ensures((g_which == 0 && OLD(g_qa.n) == 2 && OLD(g_qa.tail) != NULL) ==> g_qa.head == OLD(g_qa.tail))
 /* not waiting any more (a message was handed to it meanwhile): nothing happens - single winner */
 __CPROVER_ensures(g_which == 2 ==> (g_qa.n == OLD(g_qa.n) && g_fin_calls == OLD(g_fin_calls) && g_qa.head == OLD(g_qa.head) && g_qa.tail == OLD(g_qa.tail)))
 __CPROVER_ensures(g_pipe_send_calls == OLD(g_pipe_send_calls) && g_pipe_recv_calls == OLD(g_pipe_recv_calls) && g_pipe_close_calls == OLD(g_pipe_close_calls) && g_start_calls == OLD(g_start_calls))
@@ -194,12 +215,12 @@ SI_POST(true)
  * and the ring; both pollables finalised
  * ===================================================================== */
 static void bus0_sock_fini(void *arg)
-__CPROVER_requires(arg == g_s && VP_NO_LOCK_HELD && BUS_LMQ_PRE(BX_RQ) && BX_SLOTS_REF_OK(BX_RQ))
+__CPROVER_requires(arg == g_s && VP_NO_LOCK_HELD && BX_LMQ_PRE(BX_RQ) && BX_SLOTS_REF_OK(BX_RQ))
 __CPROVER_assigns(g_s->recv_msgs.lmq_get, g_s->recv_msgs.lmq_len, g_free_calls, g_poll_fini_calls)
 __CPROVER_assigns(BX_SLOTS_WR(BX_RQ))
 BX_SLOTS_FREES(BX_RQ)
-__CPROVER_frees(g_s->recv_msgs.lmq_msgs)
-__CPROVER_ensures(FREED(OLD(g_s->recv_msgs.lmq_msgs)) && g_poll_fini_calls == OLD(g_poll_fini_calls) + 2)
+BX_RING_FREES(BX_RQ)
+__CPROVER_ensures(BX_RING_RELEASED(BX_RQ) && g_poll_fini_calls == OLD(g_poll_fini_calls) + 2)
 __CPROVER_ensures(BX_EMPTIED(BX_RQ))
 ;
 
@@ -210,10 +231,10 @@ __CPROVER_ensures(BX_EMPTIED(BX_RQ))
 #define OB_VAL (*(const int *) buf)
 #define OB_OKARG (t == NNI_TYPE_INT32 && OB_VAL >= 1 && OB_VAL <= 8192)
 static nng_err bus0_sock_set_recv_buf_len(void *arg, const void *buf, size_t sz, nni_type t)
-__CPROVER_requires(arg == g_s && VP_NO_LOCK_HELD && BUS_LMQ_PRE(BX_RQ) && BX_SLOTS_REF_OK(BX_RQ) && BUS_RPOLL_INV)
+__CPROVER_requires(arg == g_s && VP_NO_LOCK_HELD && BX_LMQ_PRE(BX_RQ) && BX_SLOTS_REF_OK(BX_RQ) && BUS_RPOLL_INV)
 __CPROVER_requires(t == NNI_TYPE_INT32 ==> __CPROVER_is_fresh(buf, sizeof(int)))
 __CPROVER_assigns(g_s->recv_msgs, BX_SLOTS_WR(BX_RQ), VP_SYNC_GHOSTS, g_free_calls, g_alloc_ok, g_alloc_fail)
-__CPROVER_frees(g_s->recv_msgs.lmq_msgs) BX_SLOTS_FREES(BX_RQ)
+BX_RING_FREES(BX_RQ) BX_SLOTS_FREES(BX_RQ)
 __CPROVER_ensures(VP_NO_LOCK_HELD)
 __CPROVER_ensures(RV == NNG_OK || RV == NNG_EBADTYPE || RV == NNG_EINVAL || RV == NNG_ENOMEM)
 /* wrong type or out of range: refused, nothing changes */
@@ -229,7 +250,7 @@ __CPROVER_ensures(RV != NNG_OK ==> BX_UNTOUCHED(BX_RQ))
 __CPROVER_ensures(BUS_RPOLL_INV)
 ;
 static nng_err bus0_sock_get_recv_buf_len(void *arg, void *buf, size_t *szp, nni_type t)
-__CPROVER_requires(arg == g_s && VP_NO_LOCK_HELD && BUS_LMQ_PRE(BX_RQ))
+__CPROVER_requires(arg == g_s && VP_NO_LOCK_HELD && BX_LMQ_PRE(BX_RQ))
 __CPROVER_requires(t == NNI_TYPE_INT32 ==> __CPROVER_is_fresh(buf, sizeof(int)))
 __CPROVER_assigns(VP_SYNC_GHOSTS)
 __CPROVER_assigns(t == NNI_TYPE_INT32: *(int *) buf)
@@ -259,9 +280,9 @@ __CPROVER_ensures(t == NNI_TYPE_INT32 ? (RV == NNG_OK && *(int *) buf == (int) g
 #else
 #define BX_IF2(x)
 #endif
-#define SB_PIPE_PRE(i, p) (BUS_LMQ_PRE(BX_SQ(p)) && BX_SLOTS_REF_OK(BX_SQ(p)))
+#define SB_PIPE_PRE(i, p) (BX_LMQ_PRE(BX_SQ(p)) && BX_SLOTS_REF_OK(BX_SQ(p)))
 #define SB_PIPE_ASSIGNS(i, p) __CPROVER_assigns(g_np > (i): (p)->send_queue, BX_SLOTS_WR(BX_SQ(p))) \
-	__CPROVER_frees((p)->send_queue.lmq_msgs) BX_SLOTS_FREES(BX_SQ(p))
+	BX_RING_FREES(BX_SQ(p)) BX_SLOTS_FREES(BX_SQ(p))
 /* number of queues resized by this call (each successful resize allocates exactly one new ring) */
 #define SB_NRES (g_alloc_ok - OLD(g_alloc_ok))
 #define SB_PIPE_POST(i, p) (g_np <= (i) || (SB_NRES > (i) ? BX_RESIZED(BX_SQ(p), OB_VAL) : BX_UNTOUCHED(BX_SQ(p))))
